@@ -214,6 +214,11 @@ class SubSlice:
         return 'SubSlice(%s,%s)' % (self.lo, self.hi)
 
 
+class LenRef:
+    """reference to the length of the buffer, read before the loop"""
+    pass
+
+
 class CheckedSub:
     """Option<usize> returned by a.checked_sub(b): Some(a-b) iff b <= a."""
     def __init__(self, a, b):
@@ -341,6 +346,10 @@ class LoopInterp:
                 v = SliceRef()
             elif k == self.conv_k:
                 v = ConvRef()
+            elif k == getattr(self, 'base_k', None) and k is not None:
+                v = SliceRef()       # a raw pointer to the first element stands for the buffer
+            elif k == getattr(self, 'len_k', None) and k is not None:
+                v = LenRef()
             elif getattr(self, 'upvars', None) is not None and k < len(self.upvars):
                 v = self.upvars[k]        # a closure applied in place: its captures, evaluated where it was built
             else:
@@ -352,6 +361,8 @@ class LoopInterp:
             if e == 'deref':
                 if isinstance(v, CellRef):
                     v = Num(st.cells[v.k])
+                elif isinstance(v, LenRef):
+                    v = Num(('n', 0))
                 elif isinstance(v, (SliceRef, ConvRef, SlotRef, MURef, RangeIt, SubSlice)):
                     pass   # deref of a reference we model by the reference itself
                 else:
@@ -653,6 +664,27 @@ class LoopInterp:
                     if val == d.lf[1]:
                         return tgt
                 return t['otherwise']
+            if isinstance(d, Num) and d.lf is not None:
+                # `match counter { 0 => …, n => … }`: each arm learns the value it matched
+                outs = []
+                for val, tgt in t['targets']:
+                    s2 = st.fork()
+                    s2.dbm.assume_le(d.lf, ('0', val))
+                    s2.dbm.assume_le(('0', val), d.lf)
+                    if s2.dbm.consistent():
+                        outs.append((s2, tgt))
+                s2 = st.fork()
+                vals = sorted(v for v, _ in t['targets'])
+                if vals == list(range(len(vals))) and st.dbm.le(('0', 0), d.lf):
+                    s2.dbm.assume_le(('0', len(vals)), d.lf)      # none of 0..k-1: at least k
+                if s2.dbm.consistent():
+                    outs.append((s2, t['otherwise']))
+                for s3, tgt in outs[1:]:
+                    work.append((s3, tgt, False))
+                if not outs:
+                    return None
+                st.__dict__.update(outs[0][0].__dict__)
+                return outs[0][1]
             if isinstance(d, tuple) and d[0] == 'discr' and isinstance(d[2], CheckedSub) and not d[1]['p']:
                 cs = d[2]
                 outs = []
@@ -919,13 +951,15 @@ class LoopInterp:
             # ptr::read(&slice[i]): bit copy and ownership in one step
             st.events.append(('bitcopy', args[0].idx, where))
             ret = self.take(st, args[0].idx, where)
+        elif p in ('core::ptr::mut_ptr::<impl *mut T>::add', 'core::ptr::const_ptr::<impl *const T>::add') and len(args) == 2 and isinstance(args[0], SliceRef) and isinstance(args[1], Num) and args[1].lf is not None:
+            ret = SlotRef(args[1].lf, 'T', 'mut_ptr' in p)        # base.add(i): slot i (no bounds check: the uses prove the range)
         elif p in ('core::ptr::mut_ptr::<impl *mut T>::cast', 'core::ptr::const_ptr::<impl *const T>::cast'):
             a = args[0]
             if isinstance(a, SlotRef):
                 ret = SlotRef(a.idx, 'U' if (tys and tys[-1] == 'U') else a.ty, a.mut)
             else:
                 ret = a
-        elif p == 'core::ptr::write':
+        elif p in ('core::ptr::write', 'core::ptr::mut_ptr::<impl *mut T>::write'):
             dst, val = args
             if not isinstance(dst, SlotRef) or dst.ty != 'U':
                 raise CUnanalysable('ptr::write destination at %s' % where)
@@ -1052,6 +1086,7 @@ def run(ctx, crate, label):
 def loop_rules(ctx, crate, body, info, conv, label):
     li = LoopInterp(ctx, body, info['cell_fields'], info['slice_field'], info['conv_field'], label)
     li.crate = crate
+    li.base_k, li.len_k = info.get('base_field'), info.get('len_field')
     try:
         li.infer_roles()
     except CUnanalysable:
@@ -1214,6 +1249,7 @@ def outer_rules(ctx, crate, b, conv, label):
     info['loop_closure'] = loop_c['closure']
     # captured fields: &mut usize cells, &mut [T], &C
     cell_fields, slice_field, conv_field = [], None, None
+    base_field = len_field = None
     cell_locals = {}
     for k, f in enumerate(loop_c['fields']):
         ty = op_place(f)['ty'] if op_place(f) else None
@@ -1227,9 +1263,15 @@ def outer_rules(ctx, crate, b, conv, label):
             slice_field = k
         elif ty == '&C':
             conv_field = k
-    if len(cell_fields) != 2 or slice_field is None or conv_field is None or len(cell_locals) != 2:
+        elif ty in ('&*mut T', '&mut *mut T'):
+            base_field = k          # the buffer addressed through a raw pointer to its first element
+        elif ty == '&usize':
+            len_field = k           # … and its length read beforehand
+    raw_form = slice_field is None and base_field is not None and len_field is not None
+    if len(cell_fields) != 2 or (slice_field is None and not raw_form) or conv_field is None or len(cell_locals) != 2:
         raise CUnanalysable('loop closure captures %s' % [op_place(f)['ty'] if op_place(f) else '?' for f in loop_c['fields']])
-    info.update(cell_fields=cell_fields, slice_field=slice_field, conv_field=conv_field, cell_locals=cell_locals, md_local=md_local)
+    info.update(cell_fields=cell_fields, slice_field=slice_field, conv_field=conv_field, cell_locals=cell_locals, md_local=md_local,
+                base_field=base_field if raw_form else None, len_field=len_field if raw_form else None)
     # counters start at 0 and are not written by the outer function afterwards
     for k, l in cell_locals.items():
         ds = defs.get(l, [])
@@ -1255,11 +1297,35 @@ def outer_rules(ctx, crate, b, conv, label):
                 continue
             return False
         return False
-    sl_src = trace_value(b, defs, loop_c['fields'][slice_field])
+    def whole_buffer(root):
+        if root[0] == 'ref' and root[2]['p'] == ['deref']:
+            root = trace_value(b, defs, {'copy': {'l': root[2]['l'], 'p': [], 'ty': None}})[-1]
+        if root[0] == 'call':
+            rp = callee_path(root[1]) or ''
+            if rp.endswith('::as_mut_slice') or 'DerefMut' in rp or rp.endswith('::deref_mut'):
+                return of_wrapper(root[1]['args'][0], None)
+            if rp.endswith('slice::from_raw_parts_mut') or rp.endswith('slice::raw::from_raw_parts_mut'):
+                return of_wrapper(root[1]['args'][0], ['as_mut_ptr']) and of_wrapper(root[1]['args'][1], ['len'])
+        return False
+    if raw_form:
+        # base = <whole buffer>.as_mut_ptr(), len = <whole buffer>.len()
+        def through(op, names):
+            r_ = trace_value(b, defs, op)[-1]
+            if r_[0] == 'ref' and not r_[2]['p']:
+                r_ = trace_value(b, defs, {'copy': r_[2]})[-1]
+            if r_[0] == 'call' and any((callee_path(r_[1]) or '').endswith('::' + n) for n in names):
+                return whole_buffer(trace_value(b, defs, r_[1]['args'][0])[-1]) or of_wrapper(r_[1]['args'][0], None)
+            return False
+        slice_ok = through(loop_c['fields'][base_field], ['as_mut_ptr']) and through(loop_c['fields'][len_field], ['len'])
+        root = ('raw',)
+        sl_src = [root]
+    else:
+        sl_src = trace_value(b, defs, loop_c['fields'][slice_field])
     root = sl_src[-1]
     if root[0] == 'ref' and root[2]['p'] == ['deref']:
         root = trace_value(b, defs, {'copy': {'l': root[2]['l'], 'p': [], 'ty': None}})[-1]
-    slice_ok = False
+    if not raw_form:
+        slice_ok = False
     if root[0] == 'call':
         rp = callee_path(root[1]) or ''
         if rp.endswith('::as_mut_slice') or 'DerefMut' in rp or rp.endswith('::deref_mut'):
@@ -1289,9 +1355,28 @@ def cleanup_rules(ctx, crate, info, conv, label):
         return
     p_local = info['cell_locals'][roles['p']]
     q_local = info['cell_locals'][roles['q']]
-    md = info['md_local']
+    md0 = info['md_local']
     calls = list(b.calls())
     disc = lambda oid, where, text: conv['obligations'].append({'id': oid, 'where': where, 'text': text})
+
+    class _MdSet:
+        """the wrapper local and the locals it is moved into (`helper(manually_drop)` moves it to a temporary first)"""
+        def __eq__(self, l):
+            for _ in range(6):
+                if l == md0:
+                    return True
+                if not isinstance(l, int):
+                    return False
+                ds = [d for d in defs.get(l, []) if not b.blocks[d[1]]['cleanup']]
+                if len(ds) == 1 and ds[0][0] == 'stmt' and ds[0][3]['rv']['k'] == 'use' and 'move' in ds[0][3]['rv']['op'] and op_local(ds[0][3]['rv']['op']) is not None:
+                    l = op_local(ds[0][3]['rv']['op'])
+                    continue
+                return False
+            return False
+        def __ne__(self, l):
+            return not self.__eq__(l)
+        __hash__ = None
+    md = _MdSet()
 
     # ---- O5 success arm
     set_len = [(bb, t) for bb, t in calls if callee_path(t) == 'alloc::vec::Vec::<T, A>::set_len']
@@ -1388,8 +1473,15 @@ def cleanup_rules(ctx, crate, info, conv, label):
         ok = a[-1][0] == 'multi' and a[-1][1] == p_local or (a[-1][0] == 'place' and False)
         # `_99 = copy _79`
         l = op_local(sl[0][1]['args'][1])
-        d = single_def(defs, l) if l is not None else None
-        src = op_local(d[3]['rv'].get('op', {})) if d and d[0] == 'stmt' and d[3]['rv']['k'] == 'use' else l
+        src = l
+        for _ in range(6):
+            if src in (p_local, q_local) or src is None:
+                break
+            d = single_def(defs, src)
+            if d and d[0] == 'stmt' and d[3]['rv']['k'] == 'use':
+                src = op_local(d[3]['rv'].get('op', {}))
+            else:
+                break
         if src != p_local:
             which = 'the consumed counter' if src == q_local else 'something else'
             ctx.add(['C08'], 'O5', fmt_span(sl[0][1]['span']), 'set_len receives %s instead of the produced counter: the result would expose slots that hold no output' % which, key='set-len-arg')
